@@ -49,31 +49,33 @@ type Clause struct {
 }
 
 type Contract struct {
-	PkgPath     string
-	Func        string // package-relative SSA name
-	Props       []string
-	Requires    []*Clause
-	Ensures     []*Clause
-	Invs        map[int][]*Clause
-	Decr        map[int]*Clause
-	Modifies    []*Clause
-	Asserts     []*Clause
-	Shows       []*Clause
-	Linear      []string // slice variables used linearly (s = append(s, ...))
-	Bounded     string   // non-empty: the obligations are a bounded stand-in with this stated bound
-	Tier        string   // "thorough": only checked in the thorough tier
-	Entry       bool     // request entry point: no mutex is held when it starts
-	Inline      bool
-	Strict      bool
-	Trusted     bool
-	Lemma       bool
-	Allocates   bool
-	SafetyProps []string
-	NoSafety    bool
-	PanicsWhen  *Clause
-	Unroll      map[int]int
-	File        string
-	Line        int
+	PkgPath       string
+	Func          string // package-relative SSA name
+	Props         []string
+	Requires      []*Clause
+	Ensures       []*Clause
+	Invs          map[int][]*Clause
+	Decr          map[int]*Clause
+	Modifies      []*Clause
+	Asserts       []*Clause
+	Shows         []*Clause
+	Linear        []string     // slice variables used linearly (s = append(s, ...))
+	Bounded       string       // non-empty: the obligations are a bounded stand-in with this stated bound
+	Tier          string       // "thorough": only checked in the thorough tier
+	Entry         bool         // request entry point: no mutex is held when it starts
+	UnrollInlined map[int]bool // unroll only when the function is executed in place inside a caller
+	InlineCalls   []string     // callees executed in place here although they have a (non-inline) contract
+	Inline        bool
+	Strict        bool
+	Trusted       bool
+	Lemma         bool
+	Allocates     bool
+	SafetyProps   []string
+	NoSafety      bool
+	PanicsWhen    *Clause
+	Unroll        map[int]int
+	File          string
+	Line          int
 	// phase-1 info
 	ParamNames  []string
 	ResultNames []string
@@ -202,6 +204,12 @@ func parseContractFile(path, pkgPath string) ([]*Contract, error) {
 				var n int
 				fmt.Sscanf(r2, "%d", &n)
 				cur.Unroll[k] = n
+				if strings.Contains(r2, "when-inlined") {
+					if cur.UnrollInlined == nil {
+						cur.UnrollInlined = map[int]bool{}
+					}
+					cur.UnrollInlined[k] = true
+				}
 			default:
 				return nil, fmt.Errorf("%s:%d: unknown loop clause %q", path, i+1, kind)
 			}
@@ -233,6 +241,12 @@ func parseContractFile(path, pkgPath string) ([]*Contract, error) {
 			for _, n := range strings.Split(rest, ",") {
 				if n = strings.TrimSpace(n); n != "" {
 					cur.Linear = append(cur.Linear, n)
+				}
+			}
+		case "inline-calls":
+			for _, n := range strings.Split(rest, ",") {
+				if n = strings.TrimSpace(n); n != "" {
+					cur.InlineCalls = append(cur.InlineCalls, n)
 				}
 			}
 		case "entry":
